@@ -680,6 +680,26 @@ func (e *effEngine) recordPath(fi *core.FuncInfo, p *core.Path, how string, pos 
 		// usual attribution to every pointer-like argument would blame the elements, not the slice
 		return
 	}
+	if root == "call" && p != nil && p.RootCall != nil && len(all) > 0 && all[0].Field != nil && len(via) < 12 {
+		// the result of a constructor (a new record that may embed what it was handed): a store below one of its
+		// members goes where that member was initialised from — nowhere for a member the literal leaves zero or
+		// makes itself, into the argument for a member set from a parameter
+		if callee := e.c.P.StaticCallee(fi, p.RootCall); callee != nil {
+			if cf := e.c.P.Funcs[callee]; cf != nil && e.sum[cf] != nil && e.sum[cf].returnsNew {
+				if memberInit, known := e.resultMemberOrigin(cf, all[0].Field); known {
+					if memberInit == nil || e.freshExpr(cf, memberInit, 0) {
+						return
+					}
+					if po := core.ObjOf(cf.Pkg.TypesInfo, memberInit); po != nil {
+						if idx, isParam := e.paramIndex(cf, po); isParam && idx >= 0 && idx < len(p.RootCall.Args) {
+							e.recordWrite(fi, p.RootCall.Args[idx], how, pos, value, append([]core.Step{}, all[1:]...), via, origin, lhs, unknownRel)
+							return
+						}
+					}
+				}
+			}
+		}
+	}
 	if root == "call" && p != nil && p.RootCall != nil {
 		// derived from a call: attribute to each pointer-like argument (location unknown), the receiver of a method
 		// call included (a getter hands out the analyzer's or the document's own storage) unless the callee is
@@ -1021,4 +1041,65 @@ func isRecordLit(e ast.Expr) bool {
 	}
 	_, ok := e.(*ast.CompositeLit)
 	return ok
+}
+
+// resultMemberOrigin: for a function all of whose returns hand out one record literal (directly, by address, or
+// through a local defined by it), the expression the member was initialised with (nil when the literal leaves it
+// zero). known=false when the returns do not have that shape.
+func (e *effEngine) resultMemberOrigin(cf *core.FuncInfo, field *types.Var) (ast.Expr, bool) {
+	info := cf.Pkg.TypesInfo
+	var lits []*ast.CompositeLit
+	ok := true
+	ast.Inspect(cf.Decl.Body, func(n ast.Node) bool {
+		if _, isLit := n.(*ast.FuncLit); isLit {
+			return false
+		}
+		ret, isRet := n.(*ast.ReturnStmt)
+		if !isRet {
+			return true
+		}
+		if len(ret.Results) != 1 {
+			ok = false
+			return true
+		}
+		x := core.Unparen(ret.Results[0])
+		for i := 0; i < 3; i++ {
+			if u, isAddr := x.(*ast.UnaryExpr); isAddr && u.Op == token.AND {
+				x = core.Unparen(u.X)
+				continue
+			}
+			if id, isId := x.(*ast.Ident); isId {
+				defs := e.c.P.Locals(cf).Defs[core.ObjOf(info, id)]
+				if len(defs) == 1 && defs[0].Kind == core.DefAssign {
+					x = core.Unparen(defs[0].Expr)
+					continue
+				}
+			}
+			break
+		}
+		cl, isLit := x.(*ast.CompositeLit)
+		if !isLit {
+			ok = false
+			return true
+		}
+		lits = append(lits, cl)
+		return true
+	})
+	if !ok || len(lits) != 1 {
+		return nil, false
+	}
+	st, isStruct := structOf(info.TypeOf(lits[0]))
+	if !isStruct {
+		return nil, false
+	}
+	for i, el := range lits[0].Elts {
+		if kv, isKV := el.(*ast.KeyValueExpr); isKV {
+			if id, isId := kv.Key.(*ast.Ident); isId && id.Name == field.Name() {
+				return kv.Value, true
+			}
+		} else if i < st.NumFields() && st.Field(i) == field {
+			return el, true
+		}
+	}
+	return nil, true
 }
